@@ -113,7 +113,8 @@ JOBSETS['legacy'] = {
     'kinds': ['codec'],
     'gen_env': _ENVS,
     'jobs': {t: [{'id': 'legacy/codec', 'entry': FPKG + '.VerifLegacy', 'reach': ['end'], 'tags': ['legacy']},
-                 {'id': 'legacy/codec/all-kinds', 'entry': FPKG + '.VerifLegacy', 'reach': ['end'], 'cfg': {'params': {'t': 1}}, 'tags': ['legacy']}] +
+                 {'id': 'legacy/codec/all-kinds', 'entry': FPKG + '.VerifLegacy', 'reach': ['end'], 'cfg': {'params': {'t': 1}}, 'tags': ['legacy']},
+                 {'id': 'legacy/codec/nested-defaults', 'entry': FPKG + '.VerifLegacy', 'reach': ['end'], 'cfg': {'params': {'t': 2, 'S': 1, 'L': 1, 'M': 1, 'D': 1}}, 'tags': ['legacy']}] +
                 [{'id': 'legacy/envdepth/via%d/d%d' % (via, d), 'entry': FPKG + '.VerifDepthKnown', 'setup': FPKG + '.VerifSetupDepth', 'reach': ['end'],
                   'cfg': {'params': {'d': d, 'via': via}, 'max_depth': 200000, 'step_limit': 50000000, 'env': {'FRUGAL_MAX_INLINE_DEPTH': '64', 'FRUGAL_MAX_INLINE_IL_SIZE': '1000'}}, 'tags': ['legacy']}
                  for via in range(5) for d in (48, 100, 1024)] +
